@@ -50,4 +50,14 @@ namespace Aergo.Enc
 /-- An explicit collision of the hash parameter `H`: two different inputs with the same digest. -/
 def Collision (H : Bytes → Bytes) (x y : Bytes) : Prop := x ≠ y ∧ H x = H y
 
+/-- A collision of `H` between two **given finite lists** of inputs (the byte strings actually hashed on
+the two sides of a comparison). An unrestricted `∃ x y, x ≠ y ∧ H x = H y` would be true of every hash
+with fixed-length output by counting, and is therefore never used as a conclusion. -/
+def CollisionIn (H : Bytes → Bytes) (A B : List Bytes) : Prop := ∃ x ∈ A, ∃ y ∈ B, Collision H x y
+
+theorem CollisionIn.mono {H : Bytes → Bytes} {A A' B B' : List Bytes} (hA : ∀ x ∈ A, x ∈ A')
+    (hB : ∀ y ∈ B, y ∈ B') (hc : CollisionIn H A B) : CollisionIn H A' B' := by
+  obtain ⟨x, hx, y, hy, h⟩ := hc
+  exact ⟨x, hA x hx, y, hB y hy, h⟩
+
 end Aergo.Enc
